@@ -76,7 +76,7 @@ def main():
         })
     m = {
         "version": 1,
-        "setup_cmd": "cd /verif/sim && CARGO_NET_OFFLINE=true cargo build --offline --release && CARGO_NET_OFFLINE=true cargo build --offline --profile checked",
+        "setup_cmd": "cd /verif/sim && CARGO_NET_OFFLINE=true cargo build --offline --release && CARGO_NET_OFFLINE=true cargo build --offline --profile checked && (cd /verif/miri && MIRIFLAGS=-Zmiri-tree-borrows cargo +nightly miri run --offline -- vec_partial >/dev/null 2>&1 || true)",
         "hooks": {
             "guard": "--cfg orx_concurrent_iter_verif",
             "enable": "rustflags in /verif/sim/.cargo/config.toml: the simulator crate depends on /repo by path and is built with --cfg orx_concurrent_iter_verif, which swaps the crate's two `use std::sync::atomic` declarations for src/verif_hooks.rs",
